@@ -15,15 +15,26 @@
 (* power / scaled shapes, bounds in Bnd, derivatives, finite sums, as the state space, and every        *)
 (* transition is written as a vector {e, rule, ps, pe} for replay into the real code (-workers 1).      *)
 EXTENDS C19_Eval, Json, IOUtils
-CONSTANTS Coef, Bnd, MaxD, MaxSteps, SubA, SubB
+CONSTANTS Coef, Pairs, SumPairs, Bnd, MaxD, MaxSteps, SubA, SubB
 \* constant sets for the cfg files (a cfg cannot contain negative literals)
+C2 == {-1, 2}
 C3 == {-1, 1, 2}
 C4 == {-1, 0, 1, 2}
 C5 == {-2, -1, 0, 1, 3}
 B3 == {-1, 0, 2}
 B4 == {-1, 0, 1, 2}
+P1 == {<<-1, 2>>}
+P2 == {<<-1, 2>>, <<2, 0>>}
+P4 == {<<-1, 2>>, <<2, 0>>, <<0, 1>>, <<1, -1>>}
+P6 == {<<-1, 2>>, <<2, 0>>, <<0, 1>>, <<1, -1>>, <<-2, -1>>, <<0, 3>>}
+SP1 == {<<0, 2>>}
+SP3 == {<<0, 2>>, <<1, 3>>, <<2, 2>>}
+B1 == {0}
+B2 == {-1, 1}
+A1 == {-1}
 A2 == {-1, 2}
 A3 == {-2, -1, 3}
+S1 == {1}
 S2 == {0, 1}
 S3 == {-1, 0, 2}
 
@@ -168,8 +179,7 @@ Shapes(c) ==
   \cup (IF Len(c) = 2 /\ c[2] # 0 THEN {Mul(K(c[2]), Add(X, K(c[1]))), Pow(Add(Mul(K(c[2]), X), K(c[1])), 2), Div(Add(X, K(c[1])), K(2))} ELSE {})
   \cup (IF Len(c) = 4 /\ c[4] # 0 THEN {Mul(Add(Mul(K(c[4]), Pow(X, 2)), K(c[1])), Add(X, K(c[2])))} ELSE {})
 Bodies == UNION {Shapes(c) : c \in Polys}
-BndPairs == {bb \in Bnd \X Bnd : bb[1] # bb[2]}
-SumPairs == {bb \in BndPairs : bb[1] >= 0 /\ bb[1] < bb[2]}
+BndPairs == Pairs
 SumBodies == {FromPoly(PolyQ(c), "k") : c \in Polys} \cup {Mul(SignFactor, FromPoly(PolyQ(c), "k")) : c \in Polys}
 Universe ==
   {IntE("x", K(bb[1]), K(bb[2]), b) : bb \in BndPairs, b \in Bodies}
@@ -208,8 +218,10 @@ Offers(e, depth) ==
     \cup (IF e[1] = "sum" THEN {NoP("SumUnfold")} ELSE {})
 
 \* the vector handed to the real code: the substitution parameter is the expression a * x + b
+\* name of the rule of integral/rules.py that plays the role of the reference rule
+CodeRule(r) == CASE r = "Antiderivative" -> "DefiniteIntegralIdentity" [] r \in {"EvalAt", "SumUnfold"} -> "FullSimplify" [] OTHER -> r
 VecOf(e, o, n) ==
-  [e |-> e, rule |-> o[1], ps |-> o[2], step |-> n,
+  [e |-> e, rule |-> CodeRule(o[1]), ref |-> o[1], ps |-> o[2], step |-> n,
    pe |-> IF o[1] = "Substitution" THEN << Add(Mul(o[3][1], X), o[3][2]) >> ELSE o[3]]
 
 \* values of an expression at the grid points of the start expression's variables
@@ -242,5 +254,5 @@ SimplifyIdempotent == LET s == Ref("Simplify", <<>>, Last) IN Ref("Simplify", <<
 Emit == LET vs == TLCGet(7) IN
         /\ Len(vs) > 0
         /\ ndJsonSerialize(IOEnv.VECTOR_FILE, vs)
-        /\ PrintT(<<"vectors", Len(vs), "universe", Cardinality(Universe), "rules", {vs[i].rule : i \in 1..Len(vs)}>>)
+        /\ PrintT(<<"vectors", Len(vs), "universe", Cardinality(Universe), "rules", {vs[i].ref : i \in 1..Len(vs)}>>)
 =============================================================================
